@@ -304,10 +304,16 @@ def run_lab(ctx, u, cases, plan_meta, opts_list, tag):
             obs = "generated code does not compile: " + "; ".join(
                 ln.strip() for ln in out.splitlines() if ln.startswith("g/%s/" % name))[:400]
         else:
-            psc, psvcs = M.rpc_schema(pr["prog"])
-            g2 = M.GoGen()
-            if not g2.add_case(lab, c, psc, psvcs, [s["name"] for s in psvcs]):
-                obs = g2.problems[0][1]
+            try:
+                psc, psvcs = M.rpc_schema(pr["prog"])
+                g2 = M.GoGen()
+                if not g2.add_case(lab, c, psc, psvcs, [s["name"] for s in psvcs]):
+                    obs = g2.problems[0][1]
+            except ValueError as ex:
+                # a probe the model cannot express (e.g. an identifier-valued argument default): it generates
+                # and compiles now; it stays an observation
+                obs = None
+                ctx.notes.append("probe %s compiles; not driven (%s)" % (name, ex))
         u.probe_obs[name] = obs
         if obs:
             ctx.notes.append("observation outside C08 (C01/C04 business, not judged here): %s -> %s" % (pr["what"], obs))
